@@ -69,6 +69,7 @@ type tlcStep struct {
 	N     int      `json:"n"`
 	Pre   tlcCnt   `json:"pre"`
 	Cands []IntMap `json:"cands"`
+	Evs   []EvRef  `json:"evs"`
 }
 
 type tlcSched struct {
@@ -91,6 +92,7 @@ func ParseTLCSchedule(line []byte) (*Schedule, error) {
 		for _, c := range st.Cands {
 			step.Cands = append(step.Cands, map[string]int(c))
 		}
+		step.Evs = st.Evs
 		s.Steps = append(s.Steps, step)
 	}
 	return s, nil
